@@ -16,6 +16,7 @@ import (
 	"github.com/twmb/franz-go/pkg/kgo"
 	"github.com/twmb/franz-go/pkg/kmsg"
 
+	"verif/lib/explore"
 	"verif/lib/netctl"
 	"verif/lib/nrun"
 	"verif/lib/nscen"
@@ -51,6 +52,7 @@ type variant struct {
 	pollGap   time.Duration   // T1 processes for this long (virtual) after every poll
 	metaAge   time.Duration   // MetadataMaxAge (0: 10 min, i.e. no periodic refresh inside an execution)
 	envAt     int             // ENV starts after this many T1 polls returned
+	full2     bool            // thorough tier: any second deviation (default: the second deviation must be a fault)
 	weight    float64
 }
 
@@ -641,12 +643,12 @@ var variants = []*variant{
 	{name: "D-rc", cycle: []int{1, 0, 3}, rc: true, order: "T2,ENV,T1", pauseAt: 1, envAt: 1},
 	{name: "D-parts", cycle: []int{3, 1, 0}, starts: map[int32]int64{0: 2, 1: 6}, order: "ENV,T2,T1", pauseAt: 1, envAt: 1},
 	{name: "D-split", cycle: []int{1, 3, 0}, partBytes: 200, order: "T2,ENV,T1", pauseAt: 2, envAt: 1},
-	{name: "D-early", cycle: []int{1, 3, 0}, early: true, order: "ENV,T2,T1", pauseAt: 1},
-	{name: "D-late", cycle: []int{3, 0, 1}, early: true, order: "ENV,T2,T1", pauseAt: 1, t1Delay: 100 * time.Millisecond},
+	{name: "D-early", full2: true, cycle: []int{1, 3, 0}, early: true, order: "ENV,T2,T1", pauseAt: 1},
+	{name: "D-late", full2: true, cycle: []int{3, 0, 1}, early: true, order: "ENV,T2,T1", pauseAt: 1, t1Delay: 100 * time.Millisecond},
 	{name: "D-pause0-rc", cycle: []int{1, 3, 0}, rc: true, order: "T2,ENV,T1", pauseAt: 0, resumeAt: 2, envAt: 1},
-	{name: "D-onesource", cycle: []int{1, 3, 0}, oneSource: true, order: "T2,ENV,T1", pauseAt: 1, envAt: 2},
+	{name: "D-onesource", full2: true, cycle: []int{1, 3, 0}, oneSource: true, order: "T2,ENV,T1", pauseAt: 1, envAt: 2},
 	{name: "D-prefer", cycle: []int{1, 3, 0}, prefer: true, order: "ENV,T2,T1", pauseAt: 1, envAt: 1},
-	{name: "D-slow", cycle: []int{1, 3, 0}, order: "T2,ENV,T1", pauseAt: 1, envAt: 1, pollGap: 1500 * time.Millisecond, metaAge: 2 * time.Second},
+	{name: "D-slow", full2: true, cycle: []int{0, 1, 3}, order: "T2,ENV,T1", pauseAt: 1, envAt: 1, pollGap: 1500 * time.Millisecond, metaAge: 2 * time.Second},
 	{name: "D-move-idle", cycle: []int{1, 3, 0}, idleMove: true, order: "T2,ENV,T1", pauseAt: 1, envAt: 1, weight: 0.5},
 }
 
@@ -656,7 +658,14 @@ func Plans() []nrun.Plan { return plans }
 var plans = func() []nrun.Plan {
 	var ps []nrun.Plan
 	for _, v := range variants {
-		ps = append(ps, nrun.Plan{Scenario: scenario(v), QuickBudget: 1, ThoroughBudget: 2, Weight: v.weight})
+		p := nrun.Plan{Scenario: scenario(v), QuickBudget: 1, ThoroughBudget: 2, Weight: v.weight}
+		if !v.full2 {
+			// Thorough tier: the second deviation is a fault (after any first deviation).
+			p.Allow = func(parent explore.Job, point int, label string, cost int) bool {
+				return cost < 2 || nrun.IsFault(label)
+			}
+		}
+		ps = append(ps, p)
 	}
 	return ps
 }()
